@@ -7,5 +7,5 @@ for m in m1 m2 m3; do
   p=$pkg
   # a demo may live in another package: take the directory named in the diff if the demo says so
   OUT=${WAVE:-out2} /verif/tools/confirm_seeded.sh $pid $m $p "$@" 2>&1 | grep "^ok\|^FAIL\|PATCH\|^== " | tr '\n' ' '; echo
-  git -C /repo apply --check /tmp/mut/$pid/${WAVE:-out2}/$m.diff && WORKERS=16 /verif/tools/seeded.sh $pid /tmp/mut/$pid/${WAVE:-out2}/$m.diff $budget
+  WORKERS=16 /verif/tools/seeded.sh $pid /tmp/mut/$pid/${WAVE:-out2}/$m.diff $budget
 done
